@@ -275,6 +275,73 @@ fn apx_case(max_n: usize, max_muts: usize) -> BoxedStrategy<ReaderCase> {
         .boxed()
 }
 
+/// Large ICCMA'23 files: hundreds to 10^5 arguments, thousands of attack lines, indices of up to six
+/// digits at and around the bounds, long header and comment lines; optionally one ill-formed line late in the file.
+fn iccma_large() -> BoxedStrategy<ReaderCase> {
+    (
+        prop_oneof![3 => 250usize..300, 2 => 1000usize..1100, 2 => 4090usize..4100, 2 => 65_530usize..65_540, 1 => 99_990usize..=100_000],
+        prop_oneof![2 => 0usize..50, 2 => 4000usize..4200, 1 => 9000usize..9100],
+        vec((any::<u32>(), any::<u32>(), 0u8..8), 64),
+        (0u8..120, 0u16..4, any::<bool>(), any::<bool>()),
+        prop_oneof![5 => Just(0u8), 1 => 1u8..=5],
+    )
+        .prop_map(|(n, m, pairs, (hdr_blanks, long_comments, crlf, final_nl), late_bad)| {
+            let nl = if crlf { "\r\n" } else { "\n" };
+            let mut s = String::with_capacity(m * 14 + 100);
+            if long_comments > 0 {
+                s.push('#');
+                for _ in 0..(long_comments as usize * 20_000) {
+                    s.push('c');
+                }
+                s.push_str(nl);
+            }
+            s.push('p');
+            for _ in 0..1 + hdr_blanks as usize {
+                s.push(' ');
+            }
+            s.push_str("af");
+            for _ in 0..1 + (hdr_blanks as usize) / 3 {
+                s.push('\t');
+            }
+            s.push_str(&n.to_string());
+            s.push_str(nl);
+            for k in 0..m {
+                let (a, b, mode) = pairs[k % pairs.len()];
+                // indices spread over the whole range, with a bias to the bounds
+                let pick = |x: u32, j: usize| -> usize {
+                    match (mode as usize + j) % 8 {
+                        0 => 1,
+                        1 => n,
+                        2 => n.saturating_sub(1).max(1),
+                        _ => 1 + ((x as usize).wrapping_mul(2_654_435_761).wrapping_add(k * 7919 + j)) % n,
+                    }
+                };
+                s.push_str(&pick(a, 0).to_string());
+                s.push(' ');
+                s.push_str(&pick(b, 1).to_string());
+                s.push_str(nl);
+                if k == m / 2 && long_comments > 1 {
+                    s.push_str("# a comment in the middle");
+                    s.push_str(nl);
+                }
+            }
+            match late_bad {
+                1 => s.push_str(&format!("{} 1{}", n + 1, nl)),
+                2 => s.push_str(&format!("0 {}{}", n, nl)),
+                3 => s.push_str(&format!("1 2 3{}", nl)),
+                4 => s.push_str(&format!("{}1 1{}", nl, nl)),
+                5 => s.push_str(&format!("p af {}{}", n, nl)),
+                _ => {}
+            }
+            if !final_nl && s.ends_with(nl) {
+                let l = s.len() - nl.len();
+                s.truncate(l);
+            }
+            ReaderCase { fmt: 0, bytes: s.into_bytes() }
+        })
+        .boxed()
+}
+
 fn soup(fmt: u8) -> BoxedStrategy<ReaderCase> {
     vec(any::<u16>(), 0..=14)
         .prop_map(move |picks| {
@@ -406,7 +473,7 @@ impl Prop for Readers {
         "C13"
     }
     fn rule(&self) -> String {
-        "Byte strings for both readers from four generators: (i) grammar-based well-formed files with the decorations the formats define (ICCMA'23: # comment lines, trailing blank lines, CRLF, missing final newline, surrounding/multiple blanks and tabs, duplicate attack lines; Aspartix: blank lines, blanks around identifiers, duplicate declarations, CRLF, identifiers over [_A-Za-z][_A-Za-z0-9]* incl. 'arg', 'att', '_'); (ii) targeted token-level corruptions of the listed ill-formedness classes (header word/arity/number, missing header, index 0 / n+1 / negative / non-numeric, 1 or 3 tokens, content after a blank line, undeclared argument, argument after attack, missing terminator, wrong arity); (iii) byte-level mutations (insert token, delete, replace, truncate, drop line, duplicate line, lengthen a line by up to 120 ASCII or multi-byte UTF-8 filler units) and token soup; (iv) raw random bytes incl. invalid UTF-8 and NUL. Oracle: no panic; tri-state reference parsers (Accept => Ok with exactly the declared labels in order and the declared attack set; Reject => Err; Unspecified => Err or the natural reading); read_arg_from_str on every label and out-of-range values. Declared sizes above 10^5 are excluded and counted. Non-trivial: a well-formed file with >=1 decoration and >=1 attack, or an input the reference rejects; distinct = (format, bytes).".into()
+        "Byte strings for both readers from five generators: (o) one file in 3000 is a LARGE ICCMA'23 file (250 to 100000 arguments, up to 9000 attack lines with indices at and around the bounds, header with up to 120 blanks, comment lines of up to 60 KB, optionally one ill-formed line at the very end); (i) grammar-based well-formed files with the decorations the formats define (ICCMA'23: # comment lines, trailing blank lines, CRLF, missing final newline, surrounding/multiple blanks and tabs, duplicate attack lines; Aspartix: blank lines, blanks around identifiers, duplicate declarations, CRLF, identifiers over [_A-Za-z][_A-Za-z0-9]* incl. 'arg', 'att', '_'); (ii) targeted token-level corruptions of the listed ill-formedness classes (header word/arity/number, missing header, index 0 / n+1 / negative / non-numeric, 1 or 3 tokens, content after a blank line, undeclared argument, argument after attack, missing terminator, wrong arity); (iii) byte-level mutations (insert token, delete, replace, truncate, drop line, duplicate line, lengthen a line by up to 120 ASCII or multi-byte UTF-8 filler units) and token soup; (iv) raw random bytes incl. invalid UTF-8 and NUL. Oracle: no panic; tri-state reference parsers (Accept => Ok with exactly the declared labels in order and the declared attack set; Reject => Err; Unspecified => Err or the natural reading); read_arg_from_str on every label and out-of-range values. Declared sizes above 10^5 are excluded and counted. Non-trivial: a well-formed file with >=1 decoration and >=1 attack, or an input the reference rejects; distinct = (format, bytes).".into()
     }
     fn assumptions(&self) -> Vec<String> {
         vec![
@@ -417,13 +484,15 @@ impl Prop for Readers {
     fn strategy(&self, tier: Tier) -> BoxedStrategy<ReaderCase> {
         let n = tier.pick(6, 9);
         prop_oneof![
-            30 => iccma_case(n, 0),
-            30 => apx_case(n, 0),
-            14 => iccma_case(n, 3),
-            14 => apx_case(n, 3),
-            4 => soup(0),
-            4 => soup(1),
-            4 => raw_bytes(),
+            // one file in ~3000 is large (up to 100000 arguments, up to ~150 KB)
+            1 => iccma_large(),
+            900 => iccma_case(n, 0),
+            900 => apx_case(n, 0),
+            420 => iccma_case(n, 3),
+            420 => apx_case(n, 3),
+            120 => soup(0),
+            120 => soup(1),
+            120 => raw_bytes(),
         ]
         .boxed()
     }
@@ -448,6 +517,9 @@ impl Prop for Readers {
         let class = check_bytes(case.fmt, &case.bytes)?;
         let f = if case.fmt == 0 { "iccma23" } else { "aspartix" };
         rec.class(&format!("{}-{}", f, class));
+        if case.bytes.len() > 20_000 {
+            rec.class(&format!("large-file-{}", class));
+        }
         if class == "excluded-declared-size-too-large" {
             rec.count("excluded", 1);
         }
@@ -456,7 +528,9 @@ impl Prop for Readers {
         let has_attack = if case.fmt == 0 { text.lines().filter(|l| !l.starts_with('#')).count() >= 2 } else { text.contains("att(") };
         let nt = (class == "accept" && decorated && has_attack) || class == "reject";
         if nt && rec.nontrivial(case) {
-            rec.sample_sized(case.bytes.len(), || json!({"format": f, "input": text, "reference": class}));
+            if case.bytes.len() <= 2_000 {
+                rec.sample_sized(case.bytes.len(), || json!({"format": f, "input": text, "reference": class}));
+            }
         }
         Ok(())
     }
